@@ -508,7 +508,7 @@ where
                 // we are opening an existing file
                 Some(entry)
             }
-            Err(_)
+            Err(Error::NotFound)
                 if (mode == Mode::ReadWriteCreate)
                     | (mode == Mode::ReadWriteCreateOrTruncate)
                     | (mode == Mode::ReadWriteCreateOrAppend) =>
@@ -517,9 +517,14 @@ where
                 // asked us to create it
                 None
             }
-            _ => {
+            Err(Error::NotFound) => {
                 // We are opening a non-existant file, and that's not OK.
                 return Err(Error::NotFound);
+            }
+            Err(e) => {
+                // The lookup itself failed (e.g. the block device returned an
+                // error): that says nothing about whether the file exists.
+                return Err(e);
             }
         };
 
